@@ -129,6 +129,9 @@ def run(spec, res):
     from crosshair.tracers import COMPOSITE_TRACER, NoTracing, ResumedTracing
     from crosshair.util import IgnoreAttempt, UnexploredPath
 
+    from vf import sx_plugin
+    sx_plugin.install()
+
     mod = importlib.import_module(spec["module"])
     fn = getattr(mod, spec["func"])
     P = spec["params"]
@@ -161,7 +164,7 @@ def run(spec, res):
                     ok = bool(ret)  # forks on a symbolic verdict: the solver decides both sides
                     if not ok:
                         res["cex"].append({"args": S.concrete(), "kind": "post", "tag": S.tag})
-                    elif len(samples) < 3:
+                    elif len(samples) < 3 or os.environ.get("VF_DEBUG_PATHS"):
                         samples.append(S.concrete())
                 if efilter.user_exc:
                     exc = efilter.user_exc[0]
